@@ -80,6 +80,11 @@ NOINST void bus_push_raw(const int16_t *items, size_t n) {
 
 NOINST uint8_t bus_read_cb(int *ok) {
 	uint8_t b = 0; long consumed = 0, done = 0;
+	if (hx_role == ROLE_RECEIVER && mon_held_count() > 0) {
+		/* the receiver is back at the read callback: whatever it handled last has returned, nothing may still be held */
+		static atomic_int reported = 0;
+		if (!atomic_exchange(&reported, 1)) { char d[512]; mon_held_describe(d, sizeof d); hx_violation("unbalanced", "receiver thread polls the read callback while holding %s", d); }
+	}
 	__real_pthread_mutex_lock(&bmx);
 	if (pending_done_pkt) { done = pending_done_pkt; pending_done_pkt = 0; }
 	if (in_pos < in_len) {
